@@ -11,6 +11,9 @@ code itself: every synchronous `expect` must see the text it waits for, no sessi
 ended by an unknown command / die / failed transfer must end with the documented error, and the daemon must answer
 `alive` after every session that is supposed to leave it usable.
 
+All daemons are spawned from a caller environment with a UTF-8 locale (rotating with the seed) and the repository lies below a
+non-ASCII directory, so that byte and character counts of the size-prefixed requests differ.  A third stub tier serves
+histories of `generic_handler` sessions with different additional commands on one processor object (`_handler_history`).
 Before any daemon is started two stub tiers run the real processor code on in-memory pipes: every read context × every
 form of the death notice (`_notice_matrix`), and batches of outstanding expectations answered positively/negatively at
 every position through each entry point, followed by the next request's reply (`_batch_matrix`, model `consumeBatch`).
@@ -41,6 +44,9 @@ OBLIGATIONS = [
     "Pkgcore.C35.batch_reads_own_replies",
     "Pkgcore.C35.bashrc_items_answered",
     "Pkgcore.C35.bashrc_paths_acknowledged",
+    "Pkgcore.C35.session_calls_only_own_handlers",
+    "Pkgcore.C35.unknown_in_session_ends_it",
+    "Pkgcore.C35.session_independent_of_history",
 ]
 TRUSTED = [
     "the two state machines are a hand-written abstraction at message level: reply kinds instead of texts, multi-line units "
@@ -65,7 +71,10 @@ RULE = ("every read context of the processor (synchronous expect, batched expect
         "recorded sessions on real daemons: 16 scripted scenarios (each API call, each request kind, logging, file and inline "
         "transfer, die with and without build logging, die inside a profile bashrc while Python waits for `next`, die after an IPC "
         "exchange, unknown command, failed transfer, SIGTERM, shutdown) plus random sequences of 3-8 API calls on one "
-        "daemon with random preload batches and phase modes; non-trivial = the session contains an asynchronous batch, a "
+        "daemon with random preload batches and phase modes; all daemons are spawned from a caller environment with a UTF-8 locale "
+        "(LANG / LC_ALL / LC_CTYPE, NO_COLOR; rotating with the seed, POSIX included) and the repository lives below a directory "
+        "with a non-ASCII name; histories of 2-5 generic_handler sessions with different additional commands on ONE processor "
+        "object (stub pipes), the daemon sending commands of the current, of an earlier and of no session; non-trivial = the session contains an asynchronous batch, a "
         "request from the daemon or a death; distinct by abstract trace")
 LEVEL_TEXT = ("Kernel-checked Lean 4 theorems over the global transition system of the two sides (any interleaving, any number of "
               "requests, any batch length, any well typed client program, death at any moment): an invariant holds in every "
@@ -77,6 +86,48 @@ LEVEL_TEXT = ("Kernel-checked Lean 4 theorems over the global transition system 
               "validated as behaviours of the model on every run.")
 LEVEL_NOTE = ("Trusted: Lean kernel, standard axioms; the model is a message-level abstraction validated against recorded daemon "
               "traffic, not derived from the bash/Python sources; pipe capacity and signal timing are abstracted.")
+
+
+# ---------------------------------------------------------------- the caller's process environment
+
+LOCALE_VARS = ("LANG", "LC_ALL", "LC_CTYPE", "LC_MESSAGES", "LC_COLLATE", "LANGUAGE", "NO_COLOR")
+
+
+def caller_environments():
+    """process environments pkgcore is started from (the daemon is spawned out of the caller's environment): a user's shell has
+    a UTF-8 locale selected through LANG / LC_ALL / LC_CTYPE, maybe NO_COLOR and a message locale; POSIX is the test runner's"""
+    import subprocess
+    try:
+        names = subprocess.run(["locale", "-a"], stdout=subprocess.PIPE, stderr=subprocess.DEVNULL, timeout=60).stdout.decode().split()
+    except Exception:  # noqa
+        names = []
+    u = [n for n in names if n.lower().replace("-", "").endswith("utf8")]
+    u = [n for n in u if n.lower().startswith("en_us")] + [n for n in u if not n.lower().startswith("en_us")]
+    if not u:
+        return [{}]
+    a, b = u[0], u[-1]
+    return [{"LC_ALL": a}, {"LANG": b}, {"LANG": a, "NO_COLOR": "1", "LC_MESSAGES": "C"}, {"LANG": "C", "LC_CTYPE": b}, {}]
+
+
+def set_caller_environment(env):
+    saved = {k: os.environ.get(k) for k in LOCALE_VARS}
+    for k in LOCALE_VARS:
+        os.environ.pop(k, None)
+    os.environ.update(env)
+    return saved
+
+
+def daemon_ctype(pid):
+    """the character-type locale a daemon process was started with (from its environment): None = C"""
+    try:
+        raw = open(f"/proc/{pid}/environ", "rb").read().split(b"\0")
+    except OSError:
+        return None
+    env = dict(x.decode("latin-1").split("=", 1) for x in raw if b"=" in x)
+    for k in ("LC_ALL", "LC_CTYPE", "LANG"):
+        if env.get(k):
+            return None if env[k] in ("C", "POSIX") else env[k]
+    return None
 
 
 # ---------------------------------------------------------------- recording
@@ -257,14 +308,42 @@ class Bench:
         from pkgcore.ebuild.atom import atom
         from pkgcore.pytest.plugin import EbuildRepo
         self.ctx, self.processor, self.scratch = ctx, processor, scratch
-        self.repo = EbuildRepo(os.path.join(scratch, "repo"))
+        self.caller_env = ctx.extra.get("caller_environment")
+        self.envs_used = []
+        # the repository lives below a directory with a non-ASCII name (a checkout in /home/josé/…): its paths travel in the
+        # size-prefixed requests (set_metadata_path, the EBUILD/ECLASSDIR values of gen_metadata/gen_ebuild_env)
+        self.repodir = os.path.join(scratch, "josé-日本", "repo")
+        os.makedirs(os.path.dirname(self.repodir))
+        self.repo = EbuildRepo(self.repodir)
         for n in ("foo", "bar", "baz"):
-            with open(os.path.join(scratch, "repo", "eclass", n + ".eclass"), "w") as f:
+            with open(os.path.join(self.repodir, "eclass", n + ".eclass"), "w") as f:
                 f.write(n + "_func() { :; }\n")
         self.repo.create_ebuild("cat/pkg-1", data=EBUILD, eapi="8")
         self.repo.sync()
-        pkgs = list(self.repo.itermatch(atom("cat/pkg")))
+        # looking the package up regenerates its metadata through a daemon (gen_metadata with the ebuild's path): a real session
+        # like the recorded ones, so it is watched too
+        self.setup_hung = None
+
+        def kill_all():
+            pids = [e.pid for e in list(processor.active_ebp_list) + list(processor.inactive_ebp_list) if e.pid]
+            self.setup_hung = [daemon_ctype(pid) for pid in pids]
+            for pid in pids:
+                try:
+                    os.killpg(pid, 9)
+                except Exception:  # noqa
+                    pass
+        t = threading.Timer(120, kill_all)
+        t.start()
+        try:
+            pkgs = list(self.repo.itermatch(atom("cat/pkg")))
+        except Exception as e:  # noqa
+            pkgs = []
+            self.setup_error = f"{type(e).__name__}: {str(e)[:200]}"
+        finally:
+            t.cancel()
         self.pkg = pkgs[0] if pkgs else None
+        if self.pkg is None:
+            return
         self.T = os.path.join(scratch, "T")
         os.makedirs(self.T)
 
@@ -314,7 +393,7 @@ class Bench:
         else:
             # a profile bashrc that calls die: the notice arrives while Python waits for `next` (synchronous expect)
             items = [("path", f"{self.scratch}/dying.bashrc", "die")] if self.dying_bashrc else []
-            items += [("path", f"{self.scratch}/repo/eclass/{n}.eclass", 0) for n in ["bar", "baz"][:self.nbashrcs]]
+            items += [("path", f"{self.repodir}/eclass/{n}.eclass", 0) for n in ["bar", "baz"][:self.nbashrcs]]
         self.plans_used.append(items)
         for mode, what, status in items:
             ebd.write(f"{mode}\n{what}")
@@ -379,6 +458,10 @@ class Bench:
         """fn(ebp) runs API calls; returns (abstract trace, problems)"""
         processor = self.processor
         ebp = processor.request_ebuild_processor()
+        ctype = daemon_ctype(ebp.pid)
+        if ctype is not None:
+            # the daemon was not started in the C locale: its `read -N` counts characters; a stuck session is then no matter of load
+            watchdog = min(watchdog, 45)
         log, expects = [], []
         ebp.ebd_write, ebp.ebd_read = WRec(ebp.ebd_write, log), RRec(ebp.ebd_read, log)
         orig_expect = ebp.expect
@@ -404,7 +487,10 @@ class Bench:
                 except BaseException as e:  # noqa
                     err = e
                 if wd.fired:
-                    problems.append("the session did not finish: both sides waiting (daemon killed by the watchdog)")
+                    problems.append("the session did not finish: both sides waiting (daemon killed by the watchdog)"
+                                    + (f" [the daemon was started with the character locale {ctype!r} taken from the caller's "
+                                       f"environment {self.caller_env!r}: its `read -N` counts characters, Python announces bytes; last "
+                                       f"write: {[t for k, t in log if k == 'w'][-1][:160]!r}]" if ctype is not None else ""))
         finally:
             ebp.expect = orig_expect
             ebp.ebd_write, ebp.ebd_read = ebp.ebd_write.inner, ebp.ebd_read.inner
@@ -446,6 +532,7 @@ class Bench:
                 ebp.shutdown_processor(force=True)
         except BaseException as e:  # noqa
             problems.append(f"cleaning up raised {type(e).__name__}")
+        self.envs_used.append(dict(self.caller_env or {}))
         return tr, problems, log, list(self.plans_used)
 
 
@@ -453,6 +540,14 @@ def run(ctx):
     from pkgcore.ebuild import processor
     scratch = tempfile.mkdtemp(prefix="c35-")
     old_term = signal.getsignal(signal.SIGTERM)
+    envs = caller_environments()
+    try:
+        processor.shutdown_all_processors()          # daemons spawned earlier come from another environment
+    except Exception:  # noqa
+        pass
+    saved_env = set_caller_environment(envs[ctx.seed % len(envs)])
+    ctx.extra["caller_environment"] = envs[ctx.seed % len(envs)]
+    ctx.extra["caller_environments_available"] = envs
     try:
         _run(ctx, scratch)
     finally:
@@ -460,6 +555,7 @@ def run(ctx):
             processor.shutdown_all_processors()
         except Exception:
             pass
+        set_caller_environment({k: v for k, v in saved_env.items() if v is not None})
         signal.signal(signal.SIGTERM, old_term)
         shutil.rmtree(scratch, ignore_errors=True)
 
@@ -629,10 +725,119 @@ def _batch_matrix(ctx, scratch, rng):
             p.ebd_write.close()
 
 
+HANDLER_POOL = ["request_inherit", "key", "receive_env", "request_bashrcs", "probe", "has_version", "doins", "custom_cmd",
+                "failed", "prob"]          # the last two are fixed commands a session may override
+HISTORY_CORPUS = [
+    # (additional commands of the session, words the daemon sends before `phases succeeded`)
+    [(["request_inherit", "key"], ["request_inherit", "key"]), (["probe"], ["probe", "request_inherit"])],
+    [(["request_inherit", "key"], ["key"]), ([], ["key"])],
+    [(["request_inherit"], ["request_inherit"]), (None, ["request_inherit"])],
+    [(["probe", "request_bashrcs"], ["probe"]), (["request_inherit"], ["request_inherit", "request_bashrcs"]), (["probe"], ["probe"])],
+    [(["failed"], ["failed"]), (["probe"], ["probe", "failed"])],
+    [(["probe"], ["probe"]), (["probe"], ["probe", "probe"]), (["key"], ["key", "probe"])],
+    [(["custom_cmd"], ["bogus_command"]), (["key"], ["custom_cmd"]), (["key"], ["key"])],
+]
+
+
+def _handler_history(ctx, scratch, rng):
+    """ONE processor object (as the pool hands it out again and again) serves a history of `generic_handler` sessions with
+    different additional commands.  In every session each line must be dispatched to THIS session's handler for its command,
+    and a command that is neither fixed nor among this session's additional commands must end the session with
+    UnhandledCommand for that very line — whatever earlier sessions registered (theorems unknown_in_session_ends_it,
+    session_calls_only_own_handlers; model `handlerSession`)."""
+    import io
+    from pkgcore.ebuild import processor
+    histories = [[(None if e is None else list(e), list(w)) for e, w in h] for h in HISTORY_CORPUS]
+    for _ in range(ctx.n(40, 600)):
+        h = []
+        for _ in range(rng.randint(2, 5)):
+            extra = [n for n in HANDLER_POOL if rng.random() < 0.3]
+            words = [rng.choice(extra) if extra and rng.random() < 0.6 else rng.choice(HANDLER_POOL + ["bogus_command"])
+                     for _ in range(rng.randint(0, 4))]
+            h.append((None if not extra and rng.random() < 0.5 else extra, words))
+        histories.append(h)
+    jobs = []
+    for hi, h in enumerate(histories):
+        p = processor.EbuildProcessor.__new__(processor.EbuildProcessor)
+        p._readonly_vars, p._outstanding_expects, p.pid = frozenset(), [], None
+        p.shutdown_processor = lambda *a, **kw: None
+        for si, (extra, words) in enumerate(h):
+            calls = []
+
+            def mk(name, si=si, calls=calls):
+                def handler(ebp, args=None):
+                    calls.append([si, name, args])
+                    ebp.write(f"answer {si} {name}")
+                return handler
+            lines = [f"{w} arg{si}.{k}" if k % 2 == 0 or w in ("failed", "prob") else w for k, w in enumerate(words)]
+            lines.append("phases succeeded")
+            p.ebd_read = io.BytesIO("".join(l + "\n" for l in lines + ["SENTINEL"]).encode())
+            wpath = os.path.join(scratch, "history-pipe")
+            p.ebd_write = open(wpath, "w")
+            try:
+                try:
+                    res, err = p.generic_handler(additional_commands=None if extra is None else {n: mk(n) for n in extra}), None
+                except BaseException as e:  # noqa
+                    res, err = None, e
+            finally:
+                p.ebd_write.close()
+            rest = p.ebd_read.read().decode().split("\n")[:-1]
+            written = open(wpath).read().split("\n")[:-1]
+            jobs.append((hi, si, h, extra, lines, list(calls), res, err, rest, written))
+    reps = ctx.model([{"cmd": "c35.handler", "extra": j[3] or [], "lines": [l + "\n" for l in j[4]]} for j in jobs])
+    for (hi, si, h, extra, lines, calls, res, err, rest, written), m in zip(jobs, reps):
+        known = set(extra or [])
+        earlier = sorted({n for e, _ in h[:si] for n in (e or [])} - known)
+        case = {"scenario": "handler-history", "sessions_before_on_this_processor":
+                [{"additional_commands": e, "daemon_sends": w} for e, w in h[:si]],
+                "additional_commands": extra, "daemon_sends": lines}
+        # the property on the real code: walk the lines with this session's commands only
+        want_calls, want_end, want_rest = [], "finished", ["SENTINEL"]
+        for k, l in enumerate(lines):
+            w, _, a = l.partition(" ")
+            if w in known:
+                want_calls.append([si, w, a or None])
+            elif w == "phases":
+                break
+            else:
+                want_end, want_rest = ("unhandled", l), lines[k + 1:] + ["SENTINEL"]
+                break
+        stale = any(l.partition(" ")[0] in earlier for l in lines)
+        ctx.case(case, stale or want_end != "finished", key=repr((h[:si + 1])))
+        ctx.count("history_session_%d" % si)
+        ctx.count("history_end_" + (want_end if isinstance(want_end, str) else "unhandled"))
+        if stale:
+            ctx.count("history_command_of_an_earlier_session_sent")
+        got_end = "finished" if (err is None and res is True) else \
+            ("unhandled", str(err.args[0]) if err.args else "") if type(err).__name__ == "UnhandledCommand" else \
+            f"{type(err).__name__}: {str(err)[:80]}" if err is not None else f"returned {res!r}"
+        if isinstance(want_end, tuple) and isinstance(got_end, tuple) and want_end[1].partition(" ")[0] in ("prob", "failed",
+                                                                                                       "env_receiving_failed"):
+            # the fixed failure reports raise UnhandledCommand with their argument text only
+            got_end = ("unhandled", want_end[1]) if got_end[1] == want_end[1].partition(" ")[2] else got_end
+        if calls != want_calls or got_end != want_end or rest != want_rest:
+            foreign = [c for c in calls if c not in want_calls]
+            ctx.violation(case, f"session {si} on a reused processor: the daemon sent {lines!r}, this session's additional commands "
+                                f"are {extra!r} (earlier sessions also registered {earlier!r}); expected handler calls {want_calls!r} "
+                                f"and end {want_end!r} with {want_rest!r} left unread, got calls {calls!r}"
+                                f"{' (answered by handlers this session does not have: %r)' % foreign if foreign else ''}, end "
+                                f"{got_end!r}, left {rest!r}, written back {written!r}")
+            continue
+        if written != [f"answer {si} {c[1]}" for c in want_calls]:
+            ctx.violation(case, f"the replies written back {written!r} are not those of this session's handlers")
+            continue
+        m_end = m[1] if m != "bad-op" else None
+        m_want = "finished" if want_end == "finished" else ["unhandled", want_end[1] + "\n"]
+        if m == "bad-op" or m[0] != [c[1] for c in want_calls] or m_end != m_want:
+            ctx.mismatch(case, f"the model's handlerSession gives {m!r}, the code calls {[c[1] for c in calls]} and ends {got_end!r}")
+    ctx.extra["handler_histories"] = len(histories)
+
+
 def _run(ctx, scratch):
     rng = ctx.rng
     _notice_matrix(ctx, scratch)
     _batch_matrix(ctx, scratch, rng)
+    _handler_history(ctx, scratch, rng)
     # what the daemons print (die messages, syntax errors of the rejected eclass) goes to a scratch file, not to the check's stderr
     sys_err = os.dup(2)
     errlog = os.open(os.path.join(scratch, "daemon-stderr.log"), os.O_WRONLY | os.O_CREAT | os.O_APPEND, 0o600)
@@ -649,6 +854,15 @@ def _daemon_sessions(ctx, scratch, rng):
     from pkgcore.ebuild import processor as _p
     _p.shutdown_all_processors()          # daemons started from here on inherit the redirected stderr
     bench = Bench(ctx, scratch)
+    if bench.setup_hung is not None:
+        case = {"scenario": "metadata regeneration of cat/pkg-1 (repo.itermatch -> get_keys -> gen_metadata)",
+                "repository": bench.repodir, "caller_environment": bench.caller_env}
+        ctx.case(case, True)
+        ctx.violation(case, "the session did not finish within 120 s: Python waits for the daemon's reply, the daemon for more input "
+                            f"(daemons killed by the watchdog; character locale they were started with: {bench.setup_hung!r}, C when "
+                            "None; with a non-C locale the daemon's `read -N` counts characters while Python announces bytes, and the "
+                            "request carries the non-ASCII repository path)")
+        return
     if bench.pkg is None:
         ctx.broken.append("the one-ebuild repository does not yield its package")
         return
@@ -741,10 +955,16 @@ def _daemon_sessions(ctx, scratch, rng):
         sessions.append((name,) + bench.session(name, fn, expect_error=err if err != "any" else "False", leaves_daemon=leaves))
     ops = [bench.op_responsive, bench.op_preload_async, bench.op_preload_sync, bench.op_clear, bench.op_keys, bench.op_envdump,
            bench.op_phase, bench.op_phase, bench.op_preload_mixed]
+    envs = caller_environments()
     for i in range(ctx.n(4, 80)):
         chosen = [rng.choice(ops) for _ in range(rng.randint(3, 8))]
         if hung():
             break
+        if not ctx.quick() and i % 8 == 0:
+            # thorough: the caller's environment changes every few sessions (fresh daemons)
+            _p.shutdown_all_processors()
+            bench.caller_env = envs[(ctx.seed + 1 + i // 8) % len(envs)]
+            set_caller_environment(bench.caller_env)
 
         def seq(ebp, chosen=chosen):
             for f in chosen:
@@ -795,8 +1015,9 @@ def _daemon_sessions(ctx, scratch, rng):
             else:
                 ctx.mismatch(case, f"the daemon answered the bashrc items with {got!r}, the model with {m!r}")
     reps = ctx.model([{"cmd": "c35.accept", "trace": tr} for _, tr, _, _, _ in sessions])
-    for (name, tr, problems, log, _plans), rep in zip(sessions, reps):
-        case = {"scenario": name, "trace": tr}
+    for (name, tr, problems, log, _plans), rep, cenv in zip(sessions, reps, bench.envs_used):
+        case = {"scenario": name, "trace": tr, "caller_environment": cenv, "repository": bench.repodir}
+        ctx.count("caller_env_" + ("+".join(f"{k}={v}" for k, v in sorted(cenv.items())) or "POSIX"))
         kinds = {m for k, m in tr if k == "r"}
         nontrivial = bool(kinds & {"death", "request.ipc", "request.inherit", "request.bashrcs"}) or \
             any(tr[i][0] == "w" and tr[i + 1][0] == "w" and tr[i][1] == "preload" for i in range(len(tr) - 1))
